@@ -6,7 +6,7 @@ from typing import Dict, List, Optional, Set, Tuple
 
 from ..model import Repo, ClassInfo, FunctionInfo, Module, AnalysisError, walk_no_nested, src, is_self_attr, call_name, \
     dotted, parent, enclosing_stmt, ancestors
-from ..core import Ob, Rule, Mutant, mutate_module, find_def, replace_node
+from ..core import inconclusive, Ob, Rule, Mutant, mutate_module, find_def, replace_node
 from ..dataflow import Defs
 from ..cfg import cfg_of
 
@@ -675,25 +675,48 @@ def mut_lru(repo: Repo) -> List[Mutant]:
 # ------------------------------------------------------------------ exact_func_moments class flag is refreshed by every normalisation
 def rule_class_flag_refresh(repo: Repo) -> List[Ob]:
     fn = repo.function("program/transformer/__init__.py", "normalize_program")
+    key = "program/transformer/__init__.py::normalize_program::exact_func_moments"
+
+    def stores_in(g):
+        """(cfg, node) of `FunctionalAssignment.exact_func_moments = ...` statements of g"""
+        c = cfg_of(g.node)
+        out = []
+        for n in c.nodes:
+            if n.kind == "stmt" and isinstance(n.ast, ast.Assign):
+                for t in n.ast.targets:
+                    if isinstance(t, ast.Attribute) and t.attr == "exact_func_moments" and isinstance(t.value, ast.Name) and t.value.id == "FunctionalAssignment":
+                        out.append((c, n))
+        return out
     c = cfg_of(fn.node)
-    stores = []
-    for n in c.nodes:
-        if n.kind == "stmt" and isinstance(n.ast, ast.Assign):
-            for t in n.ast.targets:
-                if isinstance(t, ast.Attribute) and t.attr == "exact_func_moments" and isinstance(t.value, ast.Name) and t.value.id == "FunctionalAssignment":
-                    stores.append(n)
-    ok = False
-    msg = "normalize_program does not refresh FunctionalAssignment.exact_func_moments"
-    line = fn.node.lineno
-    if stores:
-        s = stores[0]
-        line = s.ast.lineno
-        from_settings = src(s.ast.value) == "settings.exact_func_moments"
-        on_all_paths = c.postdominates(s, c.entry)
-        ok = from_settings and on_all_paths
-        msg = "class flag exact_func_moments is refreshed from settings on every path through normalize_program" if ok else \
-            ("flag is refreshed from `%s`" % src(s.ast.value) if not from_settings else "flag is not refreshed on every path through normalize_program")
-    return [Ob("G3-flag-refresh", "program/transformer/__init__.py::normalize_program::exact_func_moments", fn.relpath, line, fn.qualname, ok, msg)]
+    cands = []     # (store node, on every path of normalize_program?)
+    for cc, n in stores_in(fn):
+        cands.append((n, cc.postdominates(n, cc.entry)))
+    # one level of same-module helpers: the store is on every path of the helper and the call on every path of normalize_program
+    for call in walk_no_nested(fn.node):
+        if isinstance(call, ast.Call) and isinstance(call.func, ast.Name):
+            h = next((g for g in repo.functions if g.module is fn.module and g.cls is None and g.name == call.func.id and g.node is not fn.node), None)
+            if h is None:
+                continue
+            cn = c.node_of(call)
+            for hc, n in stores_in(h):
+                cands.append((n, cn is not None and c.postdominates(cn, c.entry) and hc.postdominates(n, hc.entry)))
+    if not cands:
+        return [Ob("G3-flag-refresh", key, fn.relpath, fn.node.lineno, fn.qualname, False, "normalize_program does not refresh FunctionalAssignment.exact_func_moments")]
+    def from_settings(n):
+        v = n.ast.value
+        if src(v) == "settings.exact_func_moments":
+            return True
+        if isinstance(v, ast.Constant) or ("settings." in src(v) and "settings.exact_func_moments" not in src(v)):
+            return False
+        return None
+    if all(from_settings(n) is None for n, _ in cands):
+        return [inconclusive("G3-flag-refresh", key, fn.relpath, cands[0][0].ast.lineno, fn.qualname, f"value `{src(cands[0][0].ast.value)}` written to the class flag not traced to settings")]
+    good = [n for n, allp in cands if allp and from_settings(n)]
+    if good:
+        return [Ob("G3-flag-refresh", key, fn.relpath, good[0].ast.lineno, fn.qualname, True, "class flag exact_func_moments is refreshed from settings on every path through normalize_program")]
+    n, allp = cands[0]
+    msg = ("flag is refreshed from `%s`" % src(n.ast.value)) if src(n.ast.value) != "settings.exact_func_moments" else "flag is not refreshed on every path through normalize_program"
+    return [Ob("G3-flag-refresh", key, fn.relpath, n.ast.lineno, fn.qualname, False, msg)]
 
 
 def mut_class_flag_refresh(repo: Repo) -> List[Mutant]:
@@ -732,22 +755,62 @@ ORDER_TAKERS = {"list", "tuple", "enumerate", "zip", "iter", "next", "Matrix", "
 
 # reviewed order-sensitive consumers of a set: key -> reason it cannot change a reported result
 REVIEWED_SET_ORDER = {
-    "recurrences/rec_builder.py::RecBuilder.get_recurrences::to_process.pop": "worklist of symengine monomials (seed-independent hash); every monomial is processed, solutions are per monomial",
-    "recurrences/diff_rec_builder.py::DiffRecBuilder.get_recurrences::to_process.pop": "same worklist shape as RecBuilder",
-    "program/condition/atom_cond.py::Atom.get_normalized::valid_values.pop": "set of symengine numbers; the result is a disjunction of equalities, commutative in meaning",
-    "program/condition/atom_cond.py::Atom.get_normalized::for:valid_values": "same disjunction",
-    "utils/expressions.py::is_solvable::enumerate:program.variables": "index map and get_terms_with_vars enumerate the same set object in the same call",
-    "unsolvable_analysis/solvability_checker.py::SolvabilityChecker._get_infinite_var_power::enumerate:program.variables": "same index map idiom within one call",
-    "unsolvable_analysis/solvability_checker.py::SolvabilityChecker._get_dependency_graph::enumerate:program.variables": "same index map idiom within one call",
-    "cli/actions/goals_action.py::GoalsAction.parse_goals::listcomp:self.program.original_variables": "order of default goals only changes the order of printed results (symengine symbols)",
-    "program/transformer/update_info_transformer.py::UpdateInfoTransformer._set_dependencies::call:combinations": "pairs are treated symmetrically",
-    "invariants/lattice_ideal.py::LatticeIdeal.compute_basis::list:inverse_symbols": "order among the *eliminated* symbols does not change the reduced basis of the elimination ideal",
-    "cli/actions/synth_solv_loop_action.py::SynthSolvLoopAction.__call__::for:program.defective_variables": "symengine symbols (seed-independent hash); candidate order only permutes template coefficients",
-    "cli/actions/synth_unsolv_inv_action.py::SynthUnsolvInvAction.__call__::for:program.defective_variables": "symengine symbols (seed-independent hash); candidate order only permutes template coefficients",
-    "program/condition/atom_cond.py::Atom.to_arithm::listcomp:var_type.values": "factors of a product (commutative)",
-    "program/transformer/constants_transformer.py::ConstantsTransformer.execute::for:other_constants": "appends independent `c = c` assignments; their relative order has no meaning",
-    "utils/expressions.py::get_terms_with_vars::iter:part.free_symbols": "a factor of an expanded monomial has exactly one free symbol",
+    # key: file::class (or module-level function)::kind:shape, local names in the shape replaced by `_`
+    "recurrences/rec_builder.py::RecBuilder::pop:_": "worklist of symengine monomials (seed-independent hash); every monomial is processed, solutions are per monomial",
+    "recurrences/diff_rec_builder.py::DiffRecBuilder::pop:_": "same worklist shape as RecBuilder",
+    "program/condition/atom_cond.py::Atom::pop:_": "set of symengine numbers; the result is a disjunction of equalities, commutative in meaning",
+    "program/condition/atom_cond.py::Atom::for:_": "same disjunction",
+    "utils/expressions.py::is_solvable::enumerate:_.variables": "index map and get_terms_with_vars enumerate the same set object in the same call",
+    "unsolvable_analysis/solvability_checker.py::SolvabilityChecker::enumerate:_.variables": "same index map idiom within one call",
+    "cli/actions/goals_action.py::GoalsAction::listcomp:self.program.original_variables": "order of default goals only changes the order of printed results (symengine symbols)",
+    "program/transformer/update_info_transformer.py::UpdateInfoTransformer::call:combinations": "pairs are treated symmetrically",
+    "invariants/lattice_ideal.py::LatticeIdeal::list:_": "order among the *eliminated* symbols does not change the reduced basis of the elimination ideal",
+    "cli/actions/synth_solv_loop_action.py::SynthSolvLoopAction::for:_.defective_variables": "symengine symbols (seed-independent hash); candidate order only permutes template coefficients",
+    "cli/actions/synth_unsolv_inv_action.py::SynthUnsolvInvAction::for:_.defective_variables": "symengine symbols (seed-independent hash); candidate order only permutes template coefficients",
+    "program/condition/atom_cond.py::Atom::listcomp:_.values": "factors of a product (commutative)",
+    "program/transformer/constants_transformer.py::ConstantsTransformer::for:_": "appends independent `c = c` assignments; their relative order has no meaning",
+    "utils/expressions.py::get_terms_with_vars::iter:_.free_symbols": "a factor of an expanded monomial has exactly one free symbol",
 }
+# sets whose elements are plain strings (hash depends on PYTHONHASHSEED)
+STR_SET_ATTRS = {"program_variables", "artificial_variables"}
+
+
+def _alpha(e, localnames) -> str:
+    """source of e with local variable names replaced by `_` (a rename of a local is not a new site)"""
+    class R(ast.NodeTransformer):
+        def visit_Name(self, n):
+            return ast.copy_location(ast.Name(id="_", ctx=n.ctx), n) if n.id in localnames and n.id != "self" else n
+    import copy as _copy
+    return src(R().visit(_copy.deepcopy(e)))
+
+
+def _seed_dependent_elements(e, module_kind: str) -> Optional[str]:
+    """positive evidence that the hashes of the elements of set expression e depend on the hash seed"""
+    for n in ast.walk(e):
+        if isinstance(n, ast.Attribute) and n.attr in STR_SET_ATTRS:
+            return f"`{n.attr}` is a set of strings"
+        if isinstance(n, ast.Call) and isinstance(n.func, ast.Name) and n.func.id == "str":
+            return "a set of str(...) values"
+    if module_kind == "sympy":
+        return "this module works with sympy objects, whose hashes depend on the hash seed"
+    return None
+
+
+def _module_kind(mod) -> str:
+    sympy = symengine = False
+    for n in mod.tree.body:
+        if isinstance(n, ast.ImportFrom) and n.module:
+            if n.module == "sympy":
+                sympy = True
+            if n.module.startswith("symengine"):
+                symengine = True
+        elif isinstance(n, ast.Import):
+            for a in n.names:
+                if a.name == "sympy":
+                    sympy = True
+                if a.name.startswith("symengine"):
+                    symengine = True
+    return "sympy" if sympy and not symengine else "symengine" if symengine and not sympy else "mixed"
 
 
 def _is_set_expr(e, defs: Defs, depth=0) -> bool:
@@ -828,7 +891,7 @@ def rule_set_order(repo: Repo) -> List[Ob]:
                 if _is_set_expr(inner, defs):
                     why = "positions from enumerate" if kind == "enumerate" else _body_order_sensitive(n.body)
                     if why:
-                        site = (f"{kind}:{src(inner)}", n.lineno, why)
+                        site = (kind, inner, n.lineno, why)
             elif isinstance(n, (ast.ListComp, ast.GeneratorExp, ast.DictComp)):
                 if defs is None:
                     defs = Defs(f.node, f.params()[0] if f.params() else None)
@@ -846,30 +909,44 @@ def rule_set_order(repo: Repo) -> List[Ob]:
                     if isinstance(n, ast.GeneratorExp) and isinstance(p, ast.Call) and call_name(p) in ORDER_FREE_WRAPPERS:
                         wrapped = True
                     if not wrapped or kind == "enumerate":
-                        site = (f"{kind}:{src(inner)}", n.lineno, "ordered result built from a set")
+                        site = (kind, inner, n.lineno, "ordered result built from a set")
             elif isinstance(n, ast.Call):
                 cn = call_name(n)
                 if defs is None:
                     defs = Defs(f.node, f.params()[0] if f.params() else None)
                 if cn == "pop" and isinstance(n.func, ast.Attribute) and not n.args and _is_set_expr(n.func.value, defs):
-                    site = (f"{src(n.func.value)}.pop", n.lineno, "arbitrary element taken")
+                    site = ("pop", n.func.value, n.lineno, "arbitrary element taken")
                 elif isinstance(n.func, ast.Name) and cn in ("list", "tuple", "next", "iter") and n.args and _is_set_expr(n.args[0], defs) \
                         and not (isinstance(parent(n), ast.Call) and call_name(parent(n)) in ORDER_FREE_WRAPPERS) \
                         and not isinstance(parent(n), (ast.For, ast.comprehension)):
-                    site = (f"{cn}:{src(n.args[0])}", n.lineno, "ordered copy of a set")
+                    site = (cn, n.args[0], n.lineno, "ordered copy of a set")
                 elif cn in ("combinations", "permutations", "product") and n.args and _is_set_expr(n.args[0], defs):
-                    site = (f"call:{cn}", n.lineno, "ordered tuples of a set")
+                    site = ("call", cn, n.lineno, "ordered tuples of a set")
                 elif cn == "join" and n.args and _is_set_expr(n.args[0], defs):
-                    site = (f"join:{src(n.args[0])}", n.lineno, "text built in set order")
+                    site = ("join", n.args[0], n.lineno, "text built in set order")
             if site:
-                key = f"{f.relpath}::{f.qualname}::{site[0]}"
-                found[key] = (f.relpath, site[1], f.qualname, site[2])
-    for key, (rp, line, qn, why) in sorted(found.items()):
+                kind, e, line, why = site
+                localnames = set(defs.defs) | set(defs.params)
+                shape = e if isinstance(e, str) else _alpha(e, localnames)
+                scope = f.cls.name if f.cls is not None else f.qualname
+                key = f"{f.relpath}::{scope}::{kind}:{shape}"
+                evid = None if isinstance(e, str) else _seed_dependent_elements(e, _module_kind(repo.modules[f.relpath]))
+                if isinstance(e, ast.Name) and evid is None:
+                    for v in defs.defs.get(e.id, []):
+                        if isinstance(v, ast.expr):
+                            evid = evid or _seed_dependent_elements(v, "mixed")
+                found.setdefault(key, (f.relpath, line, f.qualname, why, evid))
+    for key, (rp, line, qn, why, evid) in sorted(found.items()):
         reason = REVIEWED_SET_ORDER.get(key)
-        obs.append(Ob("G3-set-order", key, rp, line, qn, reason is not None,
-                      f"order-sensitive use of a set ({why}) -- reviewed: {reason}" if reason else
-                      f"order-sensitive use of a set ({why}): the iteration order of a set of strings / sympy objects depends on PYTHONHASHSEED, "
-                      "so a reported result may depend on the hash seed; not in the reviewed table"))
+        if reason:
+            obs.append(Ob("G3-set-order", key, rp, line, qn, True, f"order-sensitive use of a set ({why}) -- reviewed: {reason}"))
+        elif evid:
+            obs.append(Ob("G3-set-order", key, rp, line, qn, False,
+                          f"order-sensitive use of a set ({why}); {evid}, so the iteration order, and with it a reported result, "
+                          "may depend on PYTHONHASHSEED; not in the reviewed table"))
+        else:
+            obs.append(inconclusive("G3-set-order", key, rp, line, qn,
+                                    f"order-sensitive use of a set ({why}) that is not in the reviewed table; no evidence that its elements hash seed-dependently (symengine objects do not)"))
     return obs
 
 
@@ -884,18 +961,20 @@ def mut_set_order(repo: Repo) -> List[Mutant]:
         return True
     ov = mutate_module(repo, "inputparser/structure_transformer.py", names_from_set)
     if ov:
-        out.append(Mutant("list-from-string-set", ov, "fire", "StructureTransformer.program::listcomp:self.program_variables", control=True))
+        out.append(Mutant("list-from-string-set", ov, "fire", "StructureTransformer::listcomp:self.program_variables", control=True))
 
-    def fresh_names_in_set_loop(tree):
-        fn = find_def(tree, "ConstantsTransformer.execute")
+    def generators_from_set(tree):
+        fn = find_def(tree, "LatticeIdeal.compute_basis")
         if fn is None:
             return False
-        fn.body.insert(1, ast.parse("for v in program.variables:\n    fresh.append(get_unique_var())").body[0])
-        fn.body.insert(1, ast.parse("fresh = []").body[0])
-        return True
-    ov = mutate_module(repo, "program/transformer/constants_transformer.py", fresh_names_in_set_loop)
+        for n in ast.walk(fn):
+            if isinstance(n, ast.Assign) and src(n.targets[0]) == "all_symbols":
+                n.value = ast.parse("list(inverse_symbols | set(self.symbols))").body[0].value
+                return True
+        return False
+    ov = mutate_module(repo, "invariants/lattice_ideal.py", generators_from_set)
     if ov:
-        out.append(Mutant("fresh-names-in-set-order", ov, "fire", "ConstantsTransformer.execute::for:program.variables"))
+        out.append(Mutant("groebner-generators-in-set-order", ov, "fire", "LatticeIdeal::list:"))
 
     def benign_sorted(tree):
         fn = find_def(tree, "StructureTransformer.program")
